@@ -436,6 +436,7 @@ func (c *Component) handleRequest(pkt *dataplane.ParsedPacket) error {
 			EncapIfIndex:  pkt.SwIfIndex,
 			State:         "requesting",
 			GroupName:     match.Name,
+			MixedAccess:   c.isMixedAccessSVLAN(pkt.OuterVLAN),
 		}
 		c.sessionIndex.Store(sessID, newSess)
 		if actual, loaded := c.sessions.LoadOrStore(lookupKey, newSess); loaded {
